@@ -23,6 +23,8 @@ BUNDLES = {
     'X': dict(src='dtn://src/', ts=(T, 1), payload=b'ABCDEF', mark=b'\x01', mark_crc=1),
     'Y': dict(src='dtn://other/', ts=(T, 1), payload=b'uvwxyz', mark=b'\x02', mark_crc=2),
     'Z': dict(src='dtn://src/', ts=(T, 2), payload=b'123456', mark=b'\x03', mark_crc=0),
+    # source differing from X's only in the query part of the endpoint ID
+    'W': dict(src='dtn://src/?w', ts=(T, 1), payload=b'pqrstu', mark=b'\x05', mark_crc=2),
     # an administrative record (status report) addressed to the node itself, fragmented on its way
     'A': dict(src='dtn://src/', ts=(T, 3), payload=admin_payload(1), mark=b'\x04', mark_crc=1, dest=NODE, flags=B.FLAG_ADMIN),
 }
@@ -59,6 +61,7 @@ def alphabet():
         ('Y[0,3)', 'Y', (0, 3), frag('Y', 0, 3)), ('Y[3,6)', 'Y', (3, 6), frag('Y', 3, 6)),
         ('Z[0,3)', 'Z', (0, 3), frag('Z', 0, 3)), ('Z[3,6)', 'Z', (3, 6), frag('Z', 3, 6)),
         ('A[0,h)', 'A', (0, AH), frag('A', 0, AH)), ('A[h,n)', 'A', (AH, AN), frag('A', AH, AN)), ('A', 'A', None, whole('A')),
+        ('W[0,3)', 'W', (0, 3), frag('W', 0, 3)), ('W[3,6)', 'W', (3, 6), frag('W', 3, 6)),
     ]
 
 
@@ -166,6 +169,37 @@ def build(params):
     return world
 
 
+def run_two_agents(params, known):
+    '''Two agents in one process (as in every exploration here, and in tests of the repository):
+    the reassembly of one must not see fragments the other received.  Every ordered pair of
+    alphabet letters, the first to agent 1 and the second to agent 2, then each agent's own
+    coverage decides what it may deliver.'''
+    violations = []
+    count = 0
+    keys = set()
+    for i in range(len(ALPHA)):
+        for j in range(len(ALPHA)):
+            count += 1
+            w1 = FragWorld(dict(max_depth=9))
+            w2 = FragWorld(dict(max_depth=9))
+            found = []
+            (v, _e) = w1.apply(('rx', i))
+            found.extend(v)
+            (v, _e) = w2.apply(('rx', j))
+            found.extend(v)
+            for w in (w1, w2):
+                while w.runnable(w.proc):
+                    (v, _e) = w.apply(('run', 'N'))
+                    found.extend(v)
+            keys.add('%d,%d' % (i, j))
+            if found and len(violations) < 4:
+                v = found[0].as_dict()
+                v['detail'] = 'letters %s -> agent 1, %s -> agent 2: %s' % (ALPHA[i][0], ALPHA[j][0], v['detail'])
+                v['case'] = dict(first=ALPHA[i][0], second=ALPHA[j][0])
+                violations.append(v)
+    return dict(name=params['name'], kind='enum', evaluations=count, nontrivial_keys=sorted(keys), violations=violations, known=[], samples=[])
+
+
 def scenarios(tier):
     depth = 5 if tier == 'thorough' else 4
     out = []
@@ -181,6 +215,13 @@ def scenarios(tier):
         out.append(dict(name='mixed/first-%s' % ALPHA[first][0], kind='graph',
                         params=dict(max_depth=depth, letters=mixed, prefix=[first]), dev_bound=0, use_snapshot=False,
                         liveness=False, max_states=400000, weight=3))
+    # the look-alike whose source differs only after "?" against the overlapping fragmentation of X
+    qs = [14, 15, 3, 5]
+    for first in qs:
+        out.append(dict(name='query-source/first-%s' % ALPHA[first][0], kind='graph',
+                        params=dict(max_depth=depth + 1, letters=qs, prefix=[first]), dev_bound=0, use_snapshot=False,
+                        liveness=False, max_states=400000, weight=3))
+    out.append(dict(name='two-agents', kind='enum', runner='run_two_agents', params=dict(name='two-agents'), weight=3))
     # a fragmented administrative record, alone and interleaved with fragments of X
     adm = [11, 12, 13, 3, 5]
     for first in (11, 12, 13):
@@ -192,6 +233,7 @@ def scenarios(tier):
 
 ASSUMPTIONS = [
     'a status report addressed to the node, in two fragments and whole, alone and interleaved with fragments of X; the extension block of the first fragment carries CRC-16 (X, A), CRC-32 (Y) or no CRC (Z)',
+    'a look-alike whose source differs from X only in the query part of the endpoint ID; two agents in one process fed different fragments (all ordered pairs of letters)',
     'six-octet payloads; fragmentations {[0,2),[2,4),[4,6)}, {[0,3),[2,5),[4,6)} and {[0,3),[3,6)} of X may be mixed; two look-alike bundles',
     'arrival histories of at most 4 (quick) / 5 (thorough) elements over the whole alphabet, 6 / 7 over X alone; idle callbacks interleaved in every order',
     'overlapping fragments of one bundle carry consistent octets',
@@ -203,4 +245,9 @@ RULE = ('explicit-state search by replay on fresh real agents over arrival histo
 
 
 def evidence(tier, seed, scens, results, wall_s):
-    return graph_evidence(PROP, tier, seed, scens, results, wall_s, ASSUMPTIONS, RULE)
+    graphs = [r for r in results if r and r.get('kind') == 'graph']
+    enums = [r for r in results if r and r.get('kind') == 'enum']
+    ev = graph_evidence(PROP, tier, seed, [sc for sc in scens if sc['kind'] == 'graph'], graphs, wall_s, ASSUMPTIONS, RULE)
+    ev['coverage']['evaluations'] = sum(r.get('evaluations', 0) for r in enums)
+    ev['coverage']['exhaustive'] = ev['coverage']['exhaustive'] and len([r for r in results if r and r.get('kind') != 'error']) == len(results)
+    return ev
